@@ -77,10 +77,16 @@ def map_indexed_(
 
     _mapper_indexed = mapper_indexed or cast(typing.MapperIndexed[_T1, _T2], _identity)
 
-    return source.pipe(
-        ops.zip_with_iterable(infinite()),
-        ops.starmap_indexed(_mapper_indexed),  # type: ignore
-    )
+    def subscribe(
+        obv: abc.ObserverBase[_T2], scheduler: abc.SchedulerBase | None = None
+    ) -> abc.DisposableBase:
+        # the index counter is created per subscription
+        return source.pipe(
+            ops.zip_with_iterable(infinite()),
+            ops.starmap_indexed(_mapper_indexed),  # type: ignore
+        ).subscribe(obv, scheduler=scheduler)
+
+    return Observable(subscribe)
 
 
 __all__ = ["map_", "map_indexed_"]
